@@ -14,11 +14,11 @@ type QP struct {
 
 // URLSpec is a raw URL written as plain data.
 type URLSpec struct {
-	Frags     []string `json:"fragments"`
-	Params    []QP     `json:"params"`
-	RawBr     bool     `json:"raw_brackets,omitempty"` // leave [ ] , unescaped
-	Corrupt   string   `json:"corrupt,omitempty"`      // text spliced in verbatim (malformed escapes etc.)
-	TrailSlash bool    `json:"trailing_slash,omitempty"`
+	Frags      []string `json:"fragments"`
+	Params     []QP     `json:"params"`
+	RawBr      bool     `json:"raw_brackets,omitempty"` // leave [ ] , unescaped
+	Corrupt    string   `json:"corrupt,omitempty"`      // text spliced in verbatim (malformed escapes etc.)
+	TrailSlash bool     `json:"trailing_slash,omitempty"`
 }
 
 const unreserved = "ABCDEFGHIJKLMNOPQRSTUVWXYZabcdefghijklmnopqrstuvwxyz0123456789-_.~"
